@@ -3,6 +3,7 @@ import ast
 from fractions import Fraction
 
 from ..model import (AnalysisError, dotted, norm_text, names_read,
+                     stmts_in_order,
                      const_value)
 from ..cfg import structural_guards
 
@@ -182,9 +183,8 @@ def _symbolic(fn, roles, target_call):
     return False
 
   # walk statements in source order up to the one holding target_call
-  stmts = sorted((s for s in ast.walk(fn.node)
-                  if isinstance(s, (ast.Assign, ast.AugAssign))),
-                 key=lambda s: (s.lineno, s.col_offset))
+  stmts = [s for s in stmts_in_order(fn.node)
+           if isinstance(s, (ast.Assign, ast.AugAssign))]
   for st in stmts:
     if any(x is target_call for x in ast.walk(st)):
       return val(target_call.args[0])
